@@ -157,11 +157,16 @@ Theorem C18_negative_length : forall p family wh ag al n addr addrlen fam2,
 Proof. exact negative_length. Qed.
 Print Assumptions C18_negative_length.
 
-(* "identical field values" fails for TTLs >= 2^31: (int) conversion (finding ttl-sign) *)
-Theorem C18_ttl_identical_refuted :
-  exists rec r a ttl,
-    parse_addr_reply LEG_AF_INET false (Parsed rec) false true 1 (Some 1) = Ok r /\
-    r_answers rec = [mkRR [119] ARES_CLASS_IN ttl (RD_A a)] /\ 0 <= ttl < 2 ^ 32 /\
-    ar_written r <> [(a, ttl)].
-Proof. exact addr_ttl_identical_refuted. Qed.
-Print Assumptions C18_ttl_identical_refuted.
+(* TTLs (with fixes/C18-ttl-int-clamp.patch): never negative, within int; the record's value
+   whenever it fits, 0 for a TTL with the top bit set (RFC 2181 s.8) *)
+Theorem C18_ttl_range : forall family rec q qs want_host cap r,
+  family = LEG_AF_INET \/ family = LEG_AF_INET6 ->
+  r_questions rec = q :: qs -> 0 <= cap <= LEG_INT_MAX -> ttls_nonneg (r_answers rec) ->
+  parse_addr_reply family false (Parsed rec) want_host true cap (Some cap) = Ok r ->
+  Forall (fun e => 0 <= snd e <= LEG_INT_MAX) (ar_written r).
+Proof. exact addr_ttl_range. Qed.
+Print Assumptions C18_ttl_range.
+
+Theorem C18_ttl_identity : forall z, 0 <= z <= LEG_INT_MAX -> ttl_to_int z = z.
+Proof. exact ttl_to_int_id. Qed.
+Print Assumptions C18_ttl_identity.
